@@ -11,6 +11,8 @@ CONSTANTS
   D_RenameAfterFailedStep = FALSE
   D_NoFsync = FALSE
   M_ZeroOffsetsWritten = TRUE
+  M_TmpStartsEmpty = TRUE
+  CLen <- SegLen
   MidSaveCommits = FALSE
   CrashAction = FALSE
   DoExport = FALSE
